@@ -53,7 +53,18 @@ META = {
     "children feed the shared Variable / Lock store of the protocol simulation (model DistN with per-worker names: "
     "dist_once_named, dist_names_cex).  A sequential write / write-through-pickled-copy / finalise-through-deepcopy "
     "also runs on a REAL in-process distributed cluster (real Variable and Lock), and the fakes' call signatures "
-    "are compared with the installed library on every run.",
+    "are compared with the installed library on every run.  One upload object over time (model Seq, theorem "
+    "once_after_cancel): every sequence of up to 4 (5) operations over write / finalise / cancel('all') / "
+    "cancel(':ALL:') / cancel() / cancel(explicit, possibly stale id), plus a cancel at every position of two full "
+    "uploads of the same object, against a storage service with active / completed / aborted uploads that lists "
+    "only active ones and rejects dead ids; oracle: a successful cancel('all') or cancel of the current upload "
+    "resets the object, the next first write initiates exactly one new upload, nothing later goes under an older "
+    "id.  Transient storage errors: a thread's create / upload_part / complete call raises once (fault transitions "
+    "in Local / Dist / DistN, covered by the same *_once theorems; a failed complete leaves the shared variable in "
+    "place) and the retry runs on another copy; all interleavings at lock/client/Variable granularity.  Several "
+    "file sinks alive at once with destinations differing only in suffix / case / directory / a prefix / a hidden "
+    "twin, all 20 interleavings of their writes and finalises: each sink must behave as the single-sink model "
+    "says it does alone, each destination holds exactly its own bytes and nothing else is left behind.",
     "note": "Trusted: Lean kernel + {propext, Classical.choice, Quot.sound}; the fakes at the client boundary "
     "(S3 client, distributed.get_client/Variable/Lock, the module dict _s3._state and the Lock constructor "
     "_s3.Lock, the open/Path names seen by _mpu_fs under the short-write fault model, an observable uploadId "
